@@ -39,11 +39,27 @@ CONSTS = [
     ("QOS_MAX_RECEIVE_MSGS", "crates/net/src/xfer/dns_multiplexer.rs", r"^const QOS_MAX_RECEIVE_MSGS: usize = (\w+);", "multiplexer messages per poll"),
     ("MAX_KEY_TAG_COLLISIONS", "crates/net/src/dnssec/mod.rs", r"^const MAX_KEY_TAG_COLLISIONS: usize = (\w+);", ""),
     ("MAX_RRSIGS_PER_RRSET", "crates/net/src/dnssec/mod.rs", r"^const MAX_RRSIGS_PER_RRSET: usize = (\w+);", ""),
+    ("DEFAULT_MAX_REQUEST_DEPTH", "crates/proto/src/op/dns_request.rs", r"^\s*max_request_depth: (\d+),", "DnsRequestOptions::default().max_request_depth (DNSSEC validation depth backstop)"),
     ("CACHE_MAX_TTL", "crates/resolver/src/cache.rs", r"^pub const MAX_TTL: u32 = (\w+);", "resolver cache MAX_TTL"),
     ("MAX_CNAME_LOOKUPS", "crates/resolver/src/recursor/handle.rs", r"^const MAX_CNAME_LOOKUPS: u8 = (\w+);", "recursor"),
+    ("RECURSOR_RECURSION_LIMIT_DEFAULT", "crates/resolver/src/recursor/mod.rs", r"^\s*recursion_limit: (\d+),", "RecursorOptions::default().recursion_limit"),
+    ("RECURSOR_NS_RECURSION_LIMIT_DEFAULT", "crates/resolver/src/recursor/mod.rs", r"^\s*ns_recursion_limit: (\d+),", "RecursorOptions::default().ns_recursion_limit"),
     ("MAX_QUERY_DEPTH", "crates/resolver/src/caching_client.rs", r"^\s*const MAX_QUERY_DEPTH: u8 = (\w+);", "stub resolver alias depth"),
     ("MAX_CNAME_DEPTH", "crates/server/src/store/in_memory/inner.rs", r"^\s*const MAX_CNAME_DEPTH: usize = (\w+);", "authoritative CNAME chase depth"),
+    ("UDP_MAX_EXAMINED", "crates/net/src/udp/udp_client_stream.rs", r"^\s*for _ in 0\.\.(\d+) \{", "datagrams examined per UDP transmission"),
+    ("QUERY_RESPONSE_BUFFER_SIZE", "crates/net/src/xfer/dns_multiplexer.rs", r"^const QUERY_RESPONSE_BUFFER_SIZE: usize = (\w+);", "per-query response channel size"),
     ("MAX_INCLUDE_LEVEL", "crates/proto/src/serialize/txt/zone.rs", r"^const MAX_INCLUDE_LEVEL: usize = (\w+);", "zone file $INCLUDE depth"),
+    ("POOL_BACKOFF_START_MS", "crates/resolver/src/name_server_pool.rs", r"^\s*let mut backoff = Duration::from_millis\((\d+)\);", "try_send: first back-off sleep (ms)"),
+    ("POOL_BACKOFF_LIMIT_MS", "crates/resolver/src/name_server_pool.rs", r"if !busy\.is_empty\(\) && backoff < Duration::from_millis\((\d+)\) \{", "try_send: back-off stops at (ms)"),
+    ("POOL_BACKOFF_FACTOR", "crates/resolver/src/name_server_pool.rs", r"^\s*backoff \*= (\d+);", "try_send: back-off growth factor"),
+    # C13 (TSIG)
+    ("TSIG_ERR_BADSIG", "crates/proto/src/rr/rdata/tsig.rs", r"^\s*TsigError::BadSig => (\d+),", "u16::from(TsigError::BadSig)"),
+    ("TSIG_ERR_BADKEY", "crates/proto/src/rr/rdata/tsig.rs", r"^\s*TsigError::BadKey => (\d+),", "u16::from(TsigError::BadKey)"),
+    ("TSIG_ERR_BADTIME", "crates/proto/src/rr/rdata/tsig.rs", r"^\s*TsigError::BadTime => (\d+),", "u16::from(TsigError::BadTime)"),
+    ("TSIG_UNKNOWN_KEY_FUDGE", "crates/proto/src/rr/tsig.rs", r"TsigAlgorithm::HmacSha256,\s*self\.time,\s*(\d+),", "fudge of the unsigned BADKEY reply"),
+    ("OPCODE_UPDATE", "crates/proto/src/op/op_code.rs", r"^\s*OpCode::Update => (\d+),", "u8::from(OpCode::Update)"),
+    ("RCODE_REFUSED", "crates/proto/src/op/response_code.rs", r"^\s*ResponseCode::Refused => (\d+),", "u16::from(ResponseCode::Refused)"),
+    ("RCODE_NOTAUTH", "crates/proto/src/op/response_code.rs", r"^\s*ResponseCode::NotAuth => (\d+),", "u16::from(ResponseCode::NotAuth)"),
     ("SERVER_UDP_NO_EDNS_LIMIT", "crates/server/src/zone_handler/message_response.rs", r"// restricts the message to 512 bytes\s*None => (\d+),", "MessageResponse::encode: UDP limit without EDNS"),
     ("SERVER_FALLBACK_LIMIT", "crates/server/src/zone_handler/message_response.rs", r"bytes\.clear\(\);\s*let mut encoder = BinEncoder::new\(&mut bytes\);\s*encoder\.set_max_size\((\d+)\);", "MessageResponse::encode: SERVFAIL fallback limit"),
     ("EDNS_MIN_PAYLOAD", "crates/proto/src/rr/dns_class.rs", r"pub fn for_opt[\s\S]*?value\.max\((\d+)\)", "DNSClass::for_opt lower clamp"),
